@@ -228,20 +228,23 @@ def run_cli(spec):
                 texts[name] = src
             if not names:
                 continue
-            case = {"mode": "cli", "files": texts}
+            if rng.random() < 0.35:
+                # a path mentioned twice (also spelt differently) is analysed and listed twice in both formats
+                names = names + [rng.choice(["", "./"]) + names[0]]
+            case = {"mode": "cli", "files": texts, "argv_names": names}
             outs = {}
             for opts in (["-f", "humanized", "--no-colors"], ["-f", "humanized"], ["-f", "json"], ["-f", "json", "--no-colors"]):
                 r = cliobs.run_cli(opts + names, cwd=d, trace=False)
                 outs[" ".join(opts)] = r
                 if r.timeout or r.traceback():
                     sh.violation("cli_failed", (" ".join(opts),), case, {"stderr": r.stderr[-300:]})
-            sh.case("cli\0" + "\0".join(texts[n] for n in names), nontrivial=True)
+            sh.case("cli\0" + "\0".join(texts[os.path.basename(n)] for n in names), nontrivial=True)
             sh.tally("files", "cli_lists")
             rh, rj = outs["-f humanized --no-colors"], outs["-f json"]
             hf = compare_reports(sh, rh.stdout, rj.stdout, case, "cli")
             if hf is not None:
                 check_order(sh, hf, case, "cli")
-                if [f["name"] for f in hf] != names:
+                if [f["name"] for f in hf] != [os.path.basename(n) for n in names]:
                     sh.violation("cli_files_listed", ("names",), case, {"expected": names, "got": [f["name"] for f in hf]})
             sh.count("c08.colours_do_not_change_the_report")
             try:
@@ -252,7 +255,7 @@ def run_cli(spec):
             except (oracle.ReportParseError, ValueError) as e:
                 sh.violation("report_unparsable", ("cli",), case, {"error": str(e)[:200]})
             sh.count("c08.exit_status_same_in_both_formats")
-            if len(set(o.rc for o in outs.values())) != 1:
+            if len(set(o.rc == 0 for o in outs.values())) != 1:
                 sh.violation("exit_status_depends_on_format", ("cli",), case, {k2: o.rc for k2, o in outs.items()})
             shutil.rmtree(d, ignore_errors=True)
         sh.sample({"cli_argv": "-f json f0.c f1.h ...  vs  -f humanized --no-colors f0.c f1.h ..."}, cap=1)
@@ -418,7 +421,7 @@ def replay(case, sh):
             for n, t in case["files"].items():
                 with open(os.path.join(tmp, n), "w", encoding="utf-8") as f:
                     f.write(t)
-            names = list(case["files"])
+            names = list(case.get("argv_names") or case["files"])
             rh = cliobs.run_cli(["-f", "humanized", "--no-colors"] + names, cwd=tmp, trace=False)
             rj = cliobs.run_cli(["-f", "json"] + names, cwd=tmp, trace=False)
             hf = compare_reports(sh, rh.stdout, rj.stdout, case, "cli")
